@@ -100,6 +100,14 @@
 (*          obb (rigid, no reflection); u[k][a] = round(10^6 * moved       *)
 (*          vertex k, axis a / (reported extent a / 2)): every |u| <=      *)
 (*          10^6 + 100 and the moved set centred (|min + max| <= 200).     *)
+(*  obbf / aabbf  FLAT geometry (round 2): three or more points of ONE    *)
+(*          plane of space that span it (a single triangle, a flat sheet):  *)
+(*          the hull clause of the property needs a spanning set, the       *)
+(*          clauses on the axis-aligned and the oriented box do not, and    *)
+(*          bounds.oriented_bounds has a documented branch for such input   *)
+(*          (coplanar_tol).  Judged by the obb / aabb clauses unchanged     *)
+(*          (the reported extent across the plane is about zero).  Sphere,  *)
+(*          cylinder and hull of flat input are NOT judged.                 *)
 (*  obb / cyl records may carry o.eps (slack in fixed-point units, 10 when *)
 (*  absent in spirit: 10 for {0..3}^3, 25 for {0..7}^3 where the rounding  *)
 (*  of W alone costs 0.5 * 7 * 3 units).                                   *)
@@ -488,6 +496,8 @@ Clause(c) ==
     CASE c.kind = "hull" -> Prefixed(c.obs, LAMBDA o : HullClause(P, o))
       [] c.kind = "hullw" -> Prefixed(c.obs, LAMBDA o : WideHullClause(P, o))
       [] c.kind = "hullb" -> Prefixed(c.obs, LAMBDA o : HullBigClause(P, o))
+      [] c.kind = "obbf" -> Prefixed(c.obs, LAMBDA o : ObbObs(P, o))
+      [] c.kind = "aabbf" -> Prefixed(c.obs, LAMBDA o : AabbClause(c.pts, c.dim, o))
       [] c.kind = "obbn" -> Prefixed(c.obs, LAMBDA o : ObbNormObs(P, o))
       [] c.kind = "ballc" -> Prefixed(c.obs, LAMBDA o : BallObs(P, o))
       [] c.kind = "aabb" -> Prefixed(c.obs, LAMBDA o : AabbClause(c.pts, c.dim, o))
@@ -507,17 +517,19 @@ InputSane ==
     /\ Len(c.sce) = c.dim /\ Len(c.off) = c.dim
     /\ \A a \in 1..c.dim : c.sce[a] \in -30..70 /\ c.off[a] \in -1073741824..1073741824
     \* kinds that are only invariant under a common scale need equal exponents
-    /\ c.kind \in {"obb", "sphere", "cyl", "ballc"} => \A a \in 1..c.dim : c.sce[a] = c.sce[1]
-    /\ c.kind \in {"obb", "cyl", "ballc"} => \A k \in 1..Len(c.obs) : c.obs[k].eps = (IF c.grid = 3 THEN EPS ELSE 25)
+    /\ c.kind \in {"obb", "obbf", "sphere", "cyl", "ballc"} => \A a \in 1..c.dim : c.sce[a] = c.sce[1]
+    /\ c.kind \in {"obb", "obbf", "cyl", "ballc"} => \A k \in 1..Len(c.obs) : c.obs[k].eps = (IF c.grid = 3 THEN EPS ELSE 25)
     /\ c.grid \in {3, 7} /\ (c.grid = 7 => c.kind \in {"hullb", "aabb", "obb", "cyl", "ballc"} /\ c.dim = 3)
     /\ IF c.kind = "hullw" THEN
            /\ c.dim = 3 /\ c.L = 100000 /\ Len(c.pts) >= 4 /\ Len(c.pts) <= 32
            /\ \A k \in 1..Len(c.pts) : \A a \in 1..3 : c.pts[k][1][a] \in 0..2 /\ c.pts[k][2][a] \in 0..3
            /\ WSpans3(c.pts)
        ELSE LET P == LiftAll(c.pts) IN
-           /\ c.dim \in {2, 3} /\ Len(c.pts) >= c.dim + 1 /\ Len(c.pts) <= (IF c.grid = 7 THEN 64 ELSE 16)
+           /\ c.dim \in {2, 3} /\ Len(c.pts) <= (IF c.grid = 7 THEN 64 ELSE 16)
            /\ \A k \in 1..Len(c.pts) : Len(c.pts[k]) = c.dim /\ \A a \in 1..c.dim : c.pts[k][a] \in 0..c.grid
-           /\ IF c.dim = 3 THEN Spans3(P) ELSE Spans2(P)
+           /\ IF c.kind \in {"obbf", "aabbf"}
+              THEN c.dim = 3 /\ c.grid = 3 /\ Len(c.pts) >= 3 /\ Spans2(P) /\ ~Spans3(P)     \* flat: spans a plane only
+              ELSE Len(c.pts) >= c.dim + 1 /\ (IF c.dim = 3 THEN Spans3(P) ELSE Spans2(P))
 
 \* laws of the reference itself on the recorded inputs flagged c.sane (never a finding about trimesh)
 RefSane ==
